@@ -59,6 +59,8 @@ def gen_response_spec(r: random.Random, proto: str = "h1", small: bool = True) -
         "data_chunk": r.choice([None, 1, 7, 100, 16384]) if proto == "h2" else None,
         "pad": r.choice([None, None, 0, 5]) if proto == "h2" else None,
     }
+    if proto == "h2" and spec["data_chunk"] in (1, 7) and size > 3000:
+        spec["data_chunk"] = 100  # keep the number of frames (and loop iterations at one virtual instant) bounded
     return spec
 
 
